@@ -23,9 +23,9 @@ from vf.core import VERIF, Ctx, Discard, HarnessError, Stats, Violation, derive_
 POW = os.path.join(VERIF, "vf", "stubs", "pow")
 
 RULE = (
-    "case = (dataset class of one of 3 back ends, 1-4 input files given as str / Path / list, in one or several directories, some missing, "
+    "case = (dataset class of one of 3 back ends, 1-4 input files given as str / Path / list, in one or several directories, some missing, some symbolic links, some named relative to the working directory, "
     "or an empty list; image and tag strings; 0-2 docker metadata; output directory given or not; container outcome: success, "
-    "DockerException before any output or after the k-th stdout/stderr chunk, success without a result file). non-trivial = >=2 files, or a "
+    "DockerException before any output or after the k-th stdout/stderr chunk (chunks include bytes that are not UTF-8), success without a result file). non-trivial = >=2 files, or a "
     "metadata override, or a failing outcome, or an expected input error; distinct by case."
 )
 
@@ -60,7 +60,9 @@ def cases(draw):
     names = draw(st.lists(st.sampled_from(["a.root", "b.root", "c.root", "file with space.root", "d.root", "é.root"]), min_size=nfiles, max_size=nfiles, unique=True))
     dirs = [0] * nfiles
     # links: every input file is a symbolic link, in one directory, to a file stored elsewhere (one or two storage directories)
-    layout = draw(st.sampled_from(["same", "same", "same", "two-dirs", "missing", "links"]))
+    # relative: the files are named relative to the directory the caller works in ("data0/a.root", "./data0/a.root")
+    layout = draw(st.sampled_from(["same", "same", "same", "two-dirs", "missing", "links", "relative"]))
+    rel_prefix = draw(st.sampled_from(["", "./"])) if layout == "relative" else None
     link_targets = [draw(st.integers(0, 1)) for _ in range(nfiles)] if layout == "links" else None
     if layout == "two-dirs" and nfiles >= 2:
         dirs[draw(st.integers(1, nfiles - 1))] = 1
@@ -74,7 +76,7 @@ def cases(draw):
     md = draw(st.lists(st.sampled_from(["md/override:1", "other/img:2"]), min_size=0, max_size=2))
     outdir = draw(st.booleans())
     outcome = draw(st.sampled_from(["success", "success", "fail-before", "fail-during", "no-result"]))
-    chunks = draw(st.lists(st.tuples(st.sampled_from(["stdout", "stderr"]), st.sampled_from([b"line\n", b"", b"warn \xc3\xa9\n", b"x" * 50])), min_size=0, max_size=4))
+    chunks = draw(st.lists(st.tuples(st.sampled_from(["stdout", "stderr"]), st.sampled_from([b"line\n", b"", b"warn \xc3\xa9\n", b"x" * 50, b"Opening /data/caf\xe9.root 12 \xb5m\n", b"\xff\xfe"])), min_size=0, max_size=4))
     fail_after = draw(st.integers(0, 4))
     payload = draw(st.binary(min_size=1, max_size=20))
     # optionally a second query on the SAME dataset object, with its own metadata / outcome
@@ -82,7 +84,7 @@ def cases(draw):
     if draw(st.integers(0, 2)) == 0:
         second = {"md": draw(st.lists(st.sampled_from(["md/second:9", "other/img:2"]), min_size=0, max_size=1)),
                   "outcome": draw(st.sampled_from(["success", "success", "fail-before"])), "payload": draw(st.binary(min_size=1, max_size=12)).decode("latin-1")}
-    return {"second": second, "backend": backend, "names": names, "dirs": dirs, "missing": missing, "link_targets": link_targets, "form": form, "image": image, "tag": tag, "default_image": use_default_image, "md": md,
+    return {"rel_prefix": rel_prefix, "second": second, "backend": backend, "names": names, "dirs": dirs, "missing": missing, "link_targets": link_targets, "form": form, "image": image, "tag": tag, "default_image": use_default_image, "md": md,
             "outdir": outdir, "outcome": outcome, "chunks": [(k, d.decode("latin-1")) for k, d in chunks], "fail_after": fail_after, "payload": payload.decode("latin-1")}
 
 
@@ -98,6 +100,7 @@ def run_case(c: dict) -> dict:
     os.environ["TMPDIR"] = tmproot
     tempfile.tempdir = None
     obs: Dict[str, Any] = {}
+    old_cwd = os.getcwd()
     try:
         ddirs = [os.path.join(scratch, "data0"), os.path.join(scratch, "data1")]
         for d in ddirs:
@@ -114,6 +117,10 @@ def run_case(c: dict) -> dict:
             elif i not in c["missing"]:
                 open(p, "wb").write(b"data")
             paths.append(p)
+        if c.get("rel_prefix") is not None:
+            # the caller works in the scratch directory and names the files relative to it
+            os.chdir(scratch)
+            paths = [c["rel_prefix"] + os.path.relpath(p, scratch) for p in paths]
         form = c["form"]
         if form == "str":
             files: Any = paths[0]
@@ -169,6 +176,7 @@ def run_case(c: dict) -> dict:
         obs["ddirs"] = ddirs
         return obs
     finally:
+        os.chdir(old_cwd)
         if old_tmp is None:
             os.environ.pop("TMPDIR", None)
         else:
@@ -236,6 +244,7 @@ def judge(c: dict, obs: dict):
     if len(scripts) < 3 or scripts[2] != "ro" or len(data) < 3 or data[2] != "ro" or (len(results) >= 3 and results[2] != "rw"):
         raise Violation("volume-modes", f"expected /scripts ro, /results rw, /data ro: {vols}", rep)
     if os.path.normpath(data[0]) != os.path.normpath(obs["ddirs"][0]):
+        # (docker takes a volume source that is not an absolute path for the NAME of a volume, not for a directory)
         raise Violation("data-dir", f"/data is {data[0]}, files are in {obs['ddirs'][0]}", rep)
     extra = sorted((v[0], v[1]) for v in vols if v[1].rstrip("/") not in ("/scripts", "/results", "/data"))
     if extra != sorted(CACHE[c["backend"]]):
@@ -280,7 +289,7 @@ def worker(payload):
         obs = run_case(c)
         res = judge(c, obs)
         nt = len(c["names"]) >= 2 or bool(c["md"]) or c["outcome"] != "success" or res == "input-error"
-        labels = (["second-query-on-same-dataset"] if c.get("second") else []) + [f"backend={c['backend']}", "outcome=" + c["outcome"], "result=" + res, f"files={len(c['names'])}", f"metadata={len(c['md'])}", "form=" + c["form"], "inputs=" + ("symlinks" if c.get("link_targets") else "files"),
+        labels = (["second-query-on-same-dataset"] if c.get("second") else []) + [f"backend={c['backend']}", "outcome=" + c["outcome"], "result=" + res, f"files={len(c['names'])}", f"metadata={len(c['md'])}", "form=" + c["form"], "inputs=" + ("symlinks" if c.get("link_targets") else ("relative-paths" if c.get("rel_prefix") is not None else "files")),
                   "outdir=" + ("given" if c["outdir"] else "default")]
         stats.case(jdump(c), nt or bool(c.get("second")), labels, {k: c[k] for k in ("backend", "names", "dirs", "missing", "form", "md", "outcome", "fail_after", "second")})
 
